@@ -722,6 +722,11 @@ func (w *worker) runCase(cs J) (res CaseResult) {
 			if !matchReply(e["r"].(J), rep, ctx) {
 				return fmt.Sprintf("reply: expected %s, observed %s", expValString(e["r"].(J)), rep)
 			}
+			if p, ok := e["proto"]; ok {
+				if d := wireTypesOk(int(jInt(p)), e["r"].(J), rep); d != "" {
+					return d
+				}
+			}
 			dm.note(e)
 			if d := compareState(e["post"].(J), ob, ctx, dm); d != "" {
 				return d
@@ -768,6 +773,39 @@ func (w *worker) runCase(cs J) (res CaseResult) {
 	}
 	res.Status = "ok"
 	return res
+}
+
+// wireTypesOk checks the reply's wire types against the protocol the model says is in force on the
+// connection: RESP2 replies use RESP2 types only; under RESP3 a field/value reply is a map.
+func wireTypesOk(proto int, exp J, rep *Reply) string {
+	if proto == 2 {
+		var bad func(r *Reply) bool
+		bad = func(r *Reply) bool {
+			switch r.Kind {
+			case '+', '-', ':', '$', '*':
+			default:
+				return true
+			}
+			if r.Null && r.Kind != '$' && r.Kind != '*' {
+				return true
+			}
+			for _, e := range r.Elems {
+				if bad(e) {
+					return true
+				}
+			}
+			return false
+		}
+		if bad(rep) {
+			return fmt.Sprintf("protocol: connection is in RESP2 but the reply uses a RESP3 type: %s", rep)
+		}
+	}
+	if proto == 3 {
+		if t := jStr(exp["t"]); (t == "umap" || t == "hello") && rep.Kind != '%' {
+			return fmt.Sprintf("protocol: connection is in RESP3 but a field/value reply is not a map: %s", rep)
+		}
+	}
+	return ""
 }
 
 type SessObs struct {
